@@ -8,15 +8,21 @@ package main
 
 import (
 	"bufio"
+	"bytes"
 	"encoding/json"
 	"flag"
 	"fmt"
+	"io"
 	"math/rand"
 	"os"
+	"os/exec"
 	"path/filepath"
 	"runtime"
+	"runtime/debug"
 	"sort"
+	"strings"
 	"sync"
+	"time"
 )
 
 // Case is one line of the cases file.
@@ -70,12 +76,21 @@ var execs = map[string]func(args []string) Result{}
 // serialOps must not run concurrently with other cases (timing / process-global state).
 var serialOps = map[string]bool{"handle": true}
 
+// isolatedOps run in worker subprocesses: a panic on a goroutine or a fatal error (stack overflow,
+// concurrent map writes) kills only the worker; the case is then recorded as a crash.
+var isolatedOps = map[string]bool{}
+
 func main() {
 	tier := flag.String("tier", "quick", "quick|thorough")
 	seed := flag.Int64("seed", 1, "PRNG seed")
 	outp := flag.String("out", "", "cases file")
 	replay := flag.String("replay", "", "re-execute the case recorded in this file on the implementation")
+	worker := flag.Bool("worker", false, "internal: execute cases read from stdin, one JSON object per line")
 	flag.Parse()
+	if *worker {
+		workerLoop()
+		return
+	}
 	if *replay != "" {
 		os.Exit(doReplay(*replay))
 	}
@@ -157,13 +172,18 @@ func runOne(c *Case) {
 }
 
 func runAll(cases []Case) {
-	var par []int
+	var par, iso []int
 	for i := range cases {
 		if serialOps[cases[i].Op] {
 			continue
 		}
+		if isolatedOps[cases[i].Op] {
+			iso = append(iso, i)
+			continue
+		}
 		par = append(par, i)
 	}
+	runIsolated(cases, iso)
 	var wg sync.WaitGroup
 	nw := runtime.NumCPU()
 	ch := make(chan int, 1024)
@@ -202,6 +222,13 @@ func doReplay(path string) int {
 		return 2
 	}
 	c := rec.Case
+	if isolatedOps[c.Op] {
+		cs := []Case{c}
+		runIsolated(cs, []int{0})
+		out, _ := json.Marshal(map[string]any{"op": c.Op, "args": c.Args, "impl_now": cs[0].Impl, "impl_recorded": c.Impl, "oracle_now": cs[0].Oracle, "extra": cs[0].Extra})
+		fmt.Println(string(out))
+		return 0
+	}
 	if aa, ok := c.Extra["abstract_args"].([]any); ok {
 		// clock-relative cases are re-executed from their abstract form
 		c.Args = nil
@@ -214,4 +241,173 @@ func doReplay(path string) int {
 	out, _ := json.Marshal(map[string]any{"op": c.Op, "args": c.Args, "impl_now": c.Impl, "impl_recorded": recorded, "oracle_now": c.Oracle, "extra": c.Extra})
 	fmt.Println(string(out))
 	return 0
+}
+
+// ---- crash-isolating workers -------------------------------------------------------------------
+
+func workerLoop() {
+	debug.SetMaxStack(48 << 20)
+	in := bufio.NewReaderSize(os.Stdin, 1<<20)
+	out := bufio.NewWriter(os.Stdout)
+	// the library under test prints diagnostics with fmt.Printf: keep them off the protocol stream
+	os.Stdout = os.Stderr
+	for {
+		line, err := in.ReadBytes('\n')
+		if len(line) > 0 {
+			var c Case
+			if json.Unmarshal(line, &c) == nil {
+				runOne(&c)
+				b, _ := json.Marshal(&c)
+				out.Write(b)
+				out.WriteByte('\n')
+				out.Flush()
+			}
+		}
+		if err != nil {
+			return
+		}
+	}
+}
+
+type workerProc struct {
+	cmd    *exec.Cmd
+	stdin  io.WriteCloser
+	stdout *bufio.Reader
+	stderr *capWriter
+}
+
+func startWorker() (*workerProc, error) {
+	cmd := exec.Command(os.Args[0], "-worker")
+	cmd.Env = append(os.Environ(), "GOMEMLIMIT=2GiB", "GOTRACEBACK=single", "GORACE=halt_on_error=1")
+	in, err := cmd.StdinPipe()
+	if err != nil {
+		return nil, err
+	}
+	out, err := cmd.StdoutPipe()
+	if err != nil {
+		return nil, err
+	}
+	eb := &bytes.Buffer{}
+	cw := &capWriter{buf: eb, max: 1 << 16}
+	cmd.Stderr = cw
+	if err := cmd.Start(); err != nil {
+		return nil, err
+	}
+	return &workerProc{cmd, in, bufio.NewReaderSize(out, 1<<20), cw}, nil
+}
+
+// capWriter keeps the first max bytes and the last max bytes (a stack overflow dumps megabytes; a
+// chatty library may print a lot before the panic line)
+type capWriter struct {
+	buf  *bytes.Buffer
+	tail []byte
+	max  int
+}
+
+func (w *capWriter) Write(p []byte) (int, error) {
+	if w.buf.Len() < w.max {
+		n := w.max - w.buf.Len()
+		if n > len(p) {
+			n = len(p)
+		}
+		w.buf.Write(p[:n])
+	}
+	w.tail = append(w.tail, p...)
+	if len(w.tail) > w.max {
+		w.tail = w.tail[len(w.tail)-w.max:]
+	}
+	return len(p), nil
+}
+
+func crashSummary(stderr string) string {
+	for _, l := range strings.Split(stderr, "\n") {
+		if strings.HasPrefix(l, "panic:") || strings.HasPrefix(l, "fatal error:") || strings.HasPrefix(l, "runtime: goroutine stack exceeds") || strings.HasPrefix(l, "WARNING: DATA RACE") {
+			return strings.TrimSpace(l)
+		}
+	}
+	if len(stderr) > 200 {
+		return "no panic line; stderr ends: " + stderr[len(stderr)-200:]
+	}
+	return stderr
+}
+
+func runIsolated(cases []Case, idx []int) {
+	if len(idx) == 0 {
+		return
+	}
+	nw := runtime.NumCPU()
+	if nw > len(idx) {
+		nw = len(idx)
+	}
+	ch := make(chan int, len(idx))
+	for _, i := range idx {
+		ch <- i
+	}
+	close(ch)
+	var wg sync.WaitGroup
+	for w := 0; w < nw; w++ {
+		wg.Add(1)
+		go func() {
+			defer wg.Done()
+			var wp *workerProc
+			for i := range ch {
+				if wp == nil {
+					var err error
+					wp, err = startWorker()
+					if err != nil {
+						cases[i].Impl = "worker-start-failed:" + err.Error()
+						continue
+					}
+				}
+				b, _ := json.Marshal(&cases[i])
+				wp.stdin.Write(append(b, '\n'))
+				done := make(chan []byte, 1)
+				go func(r *bufio.Reader) {
+					line, _ := r.ReadBytes('\n')
+					done <- line
+				}(wp.stdout)
+				var line []byte
+				timedOut := false
+				select {
+				case line = <-done:
+				case <-time.After(caseTimeout()):
+					timedOut = true
+					wp.cmd.Process.Kill()
+					line = <-done
+				}
+				var res Case
+				if len(line) > 0 && json.Unmarshal(line, &res) == nil && !timedOut {
+					cases[i].Impl, cases[i].Oracle, cases[i].Soft, cases[i].Extra = res.Impl, res.Oracle, res.Soft, res.Extra
+					if res.Args != nil {
+						cases[i].Args = res.Args
+					}
+					continue
+				}
+				// the worker died (or hung) on this case
+				wp.stdin.Close()
+				wp.cmd.Wait()
+				what := "crash:" + crashSummary(wp.stderr.buf.String()+"\n"+string(wp.stderr.tail))
+				if timedOut {
+					what = "hang:no answer within the case timeout"
+				}
+				cases[i].Impl = what
+				cases[i].Oracle = "fail:the process handling this input terminated (" + what + ")"
+				wp = nil
+			}
+			if wp != nil {
+				wp.stdin.Close()
+				wp.cmd.Wait()
+			}
+		}()
+	}
+	wg.Wait()
+}
+
+func caseTimeout() time.Duration {
+	if s := os.Getenv("VERIF_CASE_TIMEOUT"); s != "" {
+		if d, err := time.ParseDuration(s); err == nil {
+			return d
+		}
+	}
+	return 60 * time.Second
 }
